@@ -225,6 +225,19 @@ def realizer [OfNat K 1] (n : Nat) : Coo K :=
 def imaginizer [OfNat K 1] (n : Nat) : Coo K :=
   ofRows (2 * n) (2 * n) fun r => if r % 2 = 0 then [(r + 1, 1)] else []
 
+/-- LinearEinsum(domain, mf, subscripts): operands `ops` = (letters, flat data) of the static fields in key order,
+    `xs` the letters of the input, `os` the letters of the output, `sz` the size of each letter (one letter per
+    sub-domain).  `y[os] = Σ_{other letters} Π_k mf_k[letters_k] · x[xs]` — one COO entry per assignment of all letters. -/
+def einsum [Mul K] [OfNat K 0] [OfNat K 1] (letters : List Char) (sz : Char → Nat)
+    (ops : List (List Char × List K)) (xs os : List Char) : Coo K :=
+  let sizes := letters.map sz
+  let val := fun (a : List Nat) (c : Char) => a.getD (letters.idxOf c) 0
+  let flat := fun (a : List Nat) (ls : List Char) => ravel (ls.map sz) (ls.map (val a))
+  ⟨prodL (os.map sz), prodL (xs.map sz),
+   (List.range (prodL sizes)).map fun t =>
+     let a := unravel sizes t
+     (flat a os, flat a xs, prodK (ops.map fun o => o.2.getD (flat a o.1) 0))⟩
+
 /-- zero operator (NullOperator) -/
 def null (rows cols : Nat) : Coo K := ⟨rows, cols, []⟩
 
